@@ -111,6 +111,7 @@ def run_case(case) -> Result:
             res.violate("unsuccessful-intervention-returned-with-successful_only", iv=repr(iv)[:200])
             continue
         T = net.perc(net.whole())
+        F = net.whole()
         if len(iv.succession) >= 2 or any(len(c) >= 2 for c in iv.control):
             nontriv = True
         for k, (m, ctrl) in enumerate(zip(iv.succession, iv.control)):
@@ -121,10 +122,12 @@ def run_case(case) -> Result:
             for d in ctrl:
                 dd = {net.names.index(kk): int(v) for kk, v in d.items()}
                 # (b) LDOI
-                # the override wins over values of the previous trap space (it may override a network constant)
-                g = list(T)
+                # LDOI of the override together with the values fixed by the EARLIER STEPS (F); network constants are
+                # not part of F before the first step, so an override may legitimately override a constant
+                g = list(F)
                 for i, v in dd.items():
-                    g[i] = v
+                    if g[i] is None:
+                        g[i] = v
                 L = net.perc(tuple(g))
                 if not all(msp[i] is None or L[i] == msp[i] for i in range(net.n)):
                     res.violate("override:ldoi-does-not-contain-motif", step=k, override=str(d), motif=fmt_space(net, msp), ldoi=fmt_space(net, L))
@@ -152,6 +155,11 @@ def run_case(case) -> Result:
                 res.violate("succession:not-nested", step=k)
                 break
             T = T2
+            fm = list(F)
+            for i in range(net.n):
+                if msp[i] is not None and fm[i] is None:
+                    fm[i] = msp[i]
+            F = net.perc(tuple(fm))
         else:
             if net.inter(T, target) is None:
                 res.violate("final:inconsistent-with-target", final=fmt_space(net, T), target=fmt_space(net, target))
